@@ -36,6 +36,8 @@ type Clause struct {
 	Props  []string
 	Text   string
 	Loop   int
+	Local  bool // proved, not exported to callers
+	Defn   bool // definitional: exported to callers, no obligation
 	File   string
 	Line   int
 }
@@ -50,6 +52,7 @@ type Contract struct {
 	LoopMods   map[int][]string
 	Modifies   []string
 	Nullable   map[string]bool
+	SplitReturns bool // postconditions are discharged per return statement (smaller queries) instead of one conjunction per clause
 	ErrorIsValue bool // the error result is the function's product (a conversion), not a failure report
 	GuardedFree map[string]string // captured variable -> captured mutex that must be held when it is accessed
 	RangeOver  map[int]*Clause // loop ordinal -> required `for range <name>` form
@@ -336,6 +339,8 @@ func (g *Gen) loadContractFile(path string) error {
 			}
 		case "error-is-value":
 			cur.ErrorIsValue = true
+		case "split-returns":
+			cur.SplitReturns = true
 		case "assume-userfn":
 			cur.AssumeUserFn = true
 		case "unordered":
@@ -392,11 +397,25 @@ func splitWord(s string) (string, string) {
 }
 
 func parseClause(kind, rest, path string, ln int) (*Clause, error) {
+	// modifiers after the kind: `local` (proved here, not handed to callers), `defn` (a naming definition: handed to callers, not an obligation)
+	local, defn := false, false
+	for {
+		w, r2 := splitWord(rest)
+		if w == "local" {
+			local, rest = true, r2
+			continue
+		}
+		if w == "defn" {
+			defn, rest = true, r2
+			continue
+		}
+		break
+	}
 	m := clauseRe.FindStringSubmatch(rest)
 	if m == nil {
 		return nil, fmt.Errorf("%s:%d: clause must be `label[Cnn,...]: expr`", path, ln)
 	}
-	return &Clause{Kind: kind, Label: m[1], Props: parseProps(m[2]), Text: strings.TrimSpace(m[3]), File: path, Line: ln}, nil
+	return &Clause{Kind: kind, Label: m[1], Props: parseProps(m[2]), Text: strings.TrimSpace(m[3]), File: path, Line: ln, Local: local, Defn: defn}, nil
 }
 
 // contractFor finds the contract applying to a function (exact name, or a
